@@ -1,4 +1,5 @@
 import Anything.Model.Cli
+import Anything.Lemmas.PrintedParse
 import Mathlib.Tactic.ByContra
 import Anything.Generated.Knobs
 /-!
@@ -110,5 +111,44 @@ theorem C19_cli_spec :
     (⟨Anything.Generated.Knobs.cliLimit, Anything.Generated.Knobs.cliExponentLimit,
       Anything.Generated.Knobs.cliShowContinuation⟩ : Display.Spec) =
     { limit := 12, exponentLimit := 12, showContinuation := true } := rfl
+
+/-! ### The printed power of a unit -/
+
+/-- Reading a superscript digit back. -/
+def unsuperscript (c : Char) : Option Nat :=
+  (List.range 10).find? (fun d => UnitDisplay.superscript d == c)
+
+theorem unsuperscript_superscript (d : Nat) (h : d < 10) :
+    unsuperscript (UnitDisplay.superscript d) = some d := by
+  have : d = 0 ∨ d = 1 ∨ d = 2 ∨ d = 3 ∨ d = 4 ∨ d = 5 ∨ d = 6 ∨ d = 7 ∨ d = 8 ∨ d = 9 := by omega
+  rcases this with h | h | h | h | h | h | h | h | h | h <;> subst h <;> decide
+
+/-- The superscript text the model writes for a power `p ≥ 2` (nothing is written for 1). -/
+def powerText (p : Nat) : List Char :=
+  if p < 10 then [UnitDisplay.superscript p] else (Display.natDigits p).map UnitDisplay.superscript
+
+/-- **C19 (the printed power is the power).** For every power the superscript digits, read
+back most significant first, give exactly that power: all digits are written, in order —
+so the text the binary is compared with names the unit power the library computed. -/
+theorem C19_power_text (p : Nat) :
+    (powerText p).mapM unsuperscript = some (Display.natDigits p) ∧
+      Spec.Decimal.digitsVal (Display.natDigits p) = p := by
+  refine ⟨?_, Anything.Lemmas.Printed.natDigits_val p⟩
+  have hd := Anything.Lemmas.Printed.natDigits_lt p
+  unfold powerText
+  split
+  · rename_i h
+    have : Display.natDigits p = [p] := by
+      have : p = 0 ∨ p = 1 ∨ p = 2 ∨ p = 3 ∨ p = 4 ∨ p = 5 ∨ p = 6 ∨ p = 7 ∨ p = 8 ∨ p = 9 := by omega
+      rcases this with h | h | h | h | h | h | h | h | h | h <;> subst h <;> decide
+    rw [this]
+    simp [List.mapM_cons, unsuperscript_superscript p h]
+  · generalize Display.natDigits p = ds at hd
+    induction ds with
+    | nil => rfl
+    | cons d rest ih =>
+      simp only [List.map_cons, List.mapM_cons, unsuperscript_superscript d (hd d (by simp))]
+      rw [ih (fun x hx => hd x (List.mem_cons_of_mem _ hx))]
+      rfl
 
 end Anything.Props.C19
